@@ -21,7 +21,7 @@ ASSUMPTIONS = [
     "tied to the definition by C01-C10)",
     "float sums/means compared within the C01 bound, everything else exactly",
 ]
-N_HIST = {"quick": 220, "thorough": 6000}
+N_HIST = {"quick": 220, "thorough": 2400}
 STEP_OPS = ops.RED * 2 + ["var", "median", "quantile"] + ops.CUM + ops.ROLL + ops.SHIFT + ["ema"] + ops.SEL + ["groups", "groups"]
 TLS = threading.local()
 INV = {"evals": 0, "fails": []}
